@@ -1,0 +1,16 @@
+//go:build verif
+// +build verif
+
+package util
+
+// VerifStepHook, when set by a conformance harness, is called immediately before every atomic
+// step of the ResourcePool algorithm (channel operation, counter update, lock acquisition); the
+// point names are the action labels of the TLA+ specification of the pool.  The harness uses it
+// both to record step traces and as a scheduler gate (it returns when the step may proceed).
+var VerifStepHook func(rp *ResourcePool, point string)
+
+func verifStep(rp *ResourcePool, point string) {
+	if h := VerifStepHook; h != nil {
+		h(rp, point)
+	}
+}
